@@ -142,3 +142,53 @@ func init() {
 			"return bytes.Compare(entries[i].Value.Bytes(), entries[j].Value.Bytes()) < 0", "return bytes.Compare(nil, nil) < 0 && i < 0", "C03-D1", "sortDict less function"},
 	)
 }
+
+func init() {
+	addMutants(
+		Mutant{"C16", "c16-string-compare-self", "runtime/sam/expr/eval.go", "Compare.Eval",
+			"return c.result(cmp.Compare(zed.DecodeString(lhs.Bytes()), zed.DecodeString(rhs.Bytes())))", "return c.result(cmp.Compare(zed.DecodeString(lhs.Bytes()), zed.DecodeString(lhs.Bytes())))", "C16-C2", "ignores the right operand"},
+	)
+}
+
+func init() {
+	addMutants(
+		Mutant{"C11", "c11-zson-value-depth-unbounded", "zson/parser-values.go", "Parser.matchValue",
+			"\tif err := p.enter(); err != nil {\n\t\treturn nil, err\n\t}\n\tdefer p.leave()\n", "", "C11-D1", "input-driven recursion in zson"},
+		Mutant{"C11", "c11-zson-depth-error-ignored", "zson/parser-types.go", "Parser.matchType",
+			"\tif err := p.enter(); err != nil {\n\t\treturn nil, err\n\t}\n", "\tp.enter()\n", "C11-D1", "input-driven recursion in zson"},
+		Mutant{"C11", "c11-zson-depth-never-counted", "zson/parser.go", "Parser.enter",
+			"\tp.depth++\n", "", "C11-D1", "input-driven recursion in zson"},
+		Mutant{"C11", "c11-json-array-depth-unbounded", "zio/jsonio/reader.go", "Reader.handleToken",
+			"\tcase jsonlexer.TokenBeginArray:\n\t\tif err := r.enter(); err != nil {\n\t\t\treturn err\n\t\t}\n", "\tcase jsonlexer.TokenBeginArray:\n", "C11-D1", "input-driven recursion in zio/jsonio"},
+		Mutant{"C12", "c12-delete-ids-checked-against-parent-only", "lake/branch.go", "Branch.Delete",
+			"\t\t\tif err := patch.DeleteObject(id); err != nil {\n\t\t\t\treturn nil, err\n\t\t\t}\n", "", "C12-R1", "NewDeletesObject"},
+		Mutant{"C12", "c12-vector-add-ids-checked-against-parent-only", "lake/branch.go", "Branch.AddVectors",
+			"if err := patch.AddVector(id); err != nil {", "if _ = patch; snap.HasVector(id) {", "C12-R1", "NewAddVectorsObject"},
+	)
+}
+
+// round 8: each reverts one repair of the unchanged tree
+func init() {
+	addMutants(
+		Mutant{"C12", "c12-rename-unconditional", "lake/pools/store.go", "Store.Rename",
+			"err = s.store.Move(ctx, oldName, config, func(v journal.Entry) bool {\n\t\tp, ok := v.(*Config)\n\t\treturn ok && p.ID == id\n\t})", "err = s.store.Move(ctx, oldName, config, nil)", "C12-M1", "Move called from"},
+		Mutant{"C12", "c12-move-ignores-constraint", "lake/journal/store.go", "Store.Move",
+			"\t\tif c != nil && !c(oldEntry) {\n\t\t\treturn ErrConstraint\n\t\t}\n", "\t\t_ = oldEntry\n", "C12-M1", "Move is conditional"},
+		Mutant{"C12", "c12-snapshot-ahead-of-head-used", "lake/journal/store.go", "Store.load",
+			"\tif at > head {", "\tif false {", "C12-F2", "snapshot position vs head"},
+		Mutant{"C04", "c04-zjson-map-not-normalised", "zio/zjsonio/reader.go", "Reader.decodeMap",
+			"\tb.TransformContainer(zed.NormalizeMap)\n", "", "C04-N1", "decodeMap"},
+		Mutant{"C11", "c11-zjson-enum-index-unchecked", "zio/zjsonio/reader.go", "Reader.decodeEnum",
+			"\tif index < 0 || index >= len(typ.Symbols) {\n\t\treturn errors.New(\"ZJSON enum index value is out of range\")\n\t}\n", "", "C11-E1", "enum index from input"},
+		Mutant{"C02", "c02-named-enum-refused", "zson/builder.go", "buildEnum",
+			"zed.TypeUnder(enum.Type).(*zed.TypeEnum)", "enum.Type.(*zed.TypeEnum)", "C02-U1", "buildEnum"},
+		Mutant{"C02", "c02-type-name-unquoted", "zson/formatter.go", "Formatter.formatType",
+			"f.build(QuotedTypeName(named.Name))", "f.build(named.Name)", "C02-Q1", "formatType writes a type name unquoted"},
+		Mutant{"C20", "c20-fuse-single-stream", "runtime/sam/op/fuse/fuse.go", "Op.run",
+			"\t\tif ok := o.sendResult(nil, err); !ok {\n\t\t\treturn\n\t\t}\n\t\to.fuser = NewFuser(o.rctx.Zctx, MemMaxBytes)\n", "\t\to.sendResult(nil, err)\n\t\treturn\n", "C20-L1", "pulls the parent again"},
+		Mutant{"C09", "c09-countdict-assigns", "runtime/vam/op/agg.go", "countByString.countDict",
+			"] += uint64(counts[k])", "] = uint64(counts[k])", "C09-A1", "countDict"},
+		Mutant{"C09", "c09-vectorize-sliced-plan", "compiler/optimizer/vam.go", "Optimizer.Vectorize",
+			"\tif sliced {\n\t\treturn seq, nil\n\t}\n", "\t_ = sliced\n", "C09-G5", "examines the plan for a slicer"},
+	)
+}
